@@ -21,23 +21,23 @@ func init() {
 	register(&PropSpec{
 		ID:    "C02",
 		Title: "Only bytes matching their blobref, within the size cap, are ever accepted",
-		Explanation: "Decided (structural necessary conditions). Every rule looks in EFFECTIVE BODIES: a function with its literals plus, transitively (depth 4), the declared functions of the same package it calls statically or starts with go; a helper's parameter stands for the caller's argument, a call's result for the value the helper returns on its success returns, the facts of a call site hold inside the helper, and the facts common to all success returns of a helper (or all returns of a boolean helper with that result) hold in the caller where its error is known nil; 'call P succeeded before site Q' carries across calls when every return of each helper in between that may report success is dominated by the err==nil edge of the inner call. Code run from defer statements and deferred literals is not part of an effective body. " +
+		Explanation: "Decided (structural necessary conditions). Every rule looks in EFFECTIVE BODIES: a function with its literals plus, transitively (depth 4), the declared functions of the same package it calls statically or starts with go; a helper's parameter stands for the caller's argument, a call's result for the value the helper returns on its success returns, the facts of a call site hold inside the helper, and the facts common to all success returns of a helper (or all returns of a boolean helper with that result) hold in the caller where its error is known nil; 'call P succeeded before site Q' carries across calls when every return of each helper in between that may report success is dominated by the err==nil edge of the inner call. Code run from defer statements and deferred literals is not part of an effective body. A field that is written only while its object is being built (every store of the module to it initialises a fresh allocation, its address is never handed out, no value of the struct type is overwritten through a pointer) stands for the value stored there, whoever reads it: a helper reading cs.sb.Ref sees the caller's sb.Ref. The source stream is followed by role, not by helper name or result type: into objects it is stored in (also through a pointer parameter of a helper, which is then the caller's object), out of them again through parameters and loaded pointers, and out of helpers through whatever they return. " +
 			"R-entry — every non-test call of BlobReceiver.ReceiveBlob (any implementer, static or through an interface) and of blobserver.ReceiveNoHash is classified by computed acceptance idioms, judged in the effective body of the enclosing top-level function: inside the verified core (see R-core); delegation by a ReceiveBlob method of its own (ref, source) — the stream itself or a buffer filled by one checked, complete read of it and not touched since; the ref is blob.RefFromBytes/RefFromString of the very bytes/string/buffer/field that feed the reader; bytes hashed while read with HashMatches(ref)==true dominating; re-population from a checked Fetch of the same ref; a (ref,string) forwarding helper whose callers satisfy one of the idioms; or the destination's static type is a store whose own ReceiveBlob re-verifies the digest. Where no idiom applies in the function itself and it is a helper whose static callers can all be enumerated (never used as a value or through an interface, same package), the site is judged in the effective body of every caller (recursively, depth 3): all must establish an idiom. Anything else is a violation; ReceiveNoHash/ReceiveBlob taken as a function value is undecided. " +
 			"R-core — anchored at the two exported entry points blobserver.Receive and blobserver.ReceiveNoHash (not at internal helpers): the effective body of each contains exactly one backend ReceiveBlob call, on the entry point's own dst and ref; the reader handed to it is, on every feasible path (conditions on flag parameters bound to constants by the caller are evaluated), for Receive the hash-checking reader (a struct holding br.Hash() known non-nil, the same ref, and io.LimitReader/&io.LimitedReader of the entry point's src with MaxBlobSize) and for ReceiveNoHash at least that LimitReader; hub notification (BlobHub.NotifyBlobReceived, with the SizedRef the backend returned) and every nil-error return are dominated by success of the backend call; the helpers between the entry points and the backend call may be called only from the core, any other caller must itself satisfy the obligations of the verified entry point; in the Read method of the hash-checking reader type (found from the value, not by name) the bytes read are hashed before the comparison and the underlying error is returned unchanged only where it is known not to be EOF or HashMatches is known true. " +
 			"R-http — anchored at the exported constructors CreatePutUploadHandler and CreateBatchUploadHandler: in the PUT handler's effective body Receive is called on the constructor's storage with the parsed ref only under ContentLength<=MaxBlobSize, Parse ok and IsSupported; every path on which Receive's error may be non-nil writes an error status (followed upwards through helpers that pass the error on), a success status only under err==nil; the multipart handler lists in UploadResponse.Received only results of Receive whose success dominates the listing, and the error guarding the listing merges Receive's error with a non-nil error raised when the part's byte counter (limited to MaxBlobSize+1) reached the limit. " +
 			"R-commit — for every ReceiveBlob implementation, every commit point of its effective body (delegated receive, sorted.KeyValue Set/Delete/CommitBatch, VFS rename, store into a map reachable from the receiver, and a three-entry table of calls into other packages/third-party clients) is the call that consumes the source or is dominated by the err==nil edge of a complete read of it (io.Copy/ReadAll/ReadFrom/delegation, possibly inside a helper); the read error of a consumer is never discarded; a helper that is handed bytes as a reader other than the source stream and commits is checked like a receiver of its own; stores that compare the digest themselves commit only under HashMatches==true; every nil-error return follows a successful consumer (R-verdict; a return of a helper's error is replaced by the helper's own returns). " +
-			"NOT decided: that the hash functions compute the right digest; behaviour at exactly 16 MiB; fragmentation of readers; that opaque third-party upload calls (S3, Drive, Azure, GCS, mgo, the perkeep client) abort atomically when their body reader fails; aliasing beyond single-store locals, captured variables, parameter-to-argument binding and receiver-rooted field paths; callees mutating a buffer they were not passed; helpers of other packages, helpers reached through function values or interfaces (an HTTP handler turned into a type with a ServeHTTP method is not followed and would be reported), effective bodies deeper than 4 calls or larger than 400 frames; what deferred code and test-support packages do.",
+			"NOT decided: that the hash functions compute the right digest; behaviour at exactly 16 MiB; fragmentation of readers; that opaque third-party upload calls (S3, Drive, Azure, GCS, mgo, the perkeep client) abort atomically when their body reader fails; aliasing beyond single-store locals, captured variables, parameter-to-argument binding, receiver-rooted field paths and write-once fields of objects allocated in the effective body (writes through reflection or unsafe are not seen); callees mutating a buffer they were not passed; helpers of other packages, helpers reached through function values or interfaces (an HTTP handler turned into a type with a ServeHTTP method is not followed and would be reported), effective bodies deeper than 4 calls or larger than 400 frames; what deferred code and test-support packages do.",
 		RuleDocs: map[string]string{
 			"R-entry":   "who-may-call: every call of BlobReceiver.ReceiveBlob / blobserver.ReceiveNoHash outside test support, classified by value-flow idioms over the effective body (delegation of own source, ref computed from the same bytes, hash-verified buffer, re-population from Fetch, re-verifying destination type, forwarding helper); a helper with enumerable callers is judged in each caller's effective body",
 			"R-core":    "the effective bodies of blobserver.Receive and ReceiveNoHash: one backend call on the own dst/ref, value chain of the reader handed to it on every feasible path, nil-hash guard, notification and success returns dominated by its success, who may call the shared helpers; Read of the hash-checking reader: EOF turned into ErrCorruptBlob unless the digest matches",
 			"R-http":    "PUT and multipart upload handlers (effective bodies of the exported constructors): guards dominating Receive, error status on every failing path, Received list built only from successful verified receives, oversize override",
-			"R-commit":  "every ReceiveBlob implementation: commit points of the effective body dominated by success of the call that consumes source; consumer errors not discarded; reader-taking commit helpers checked like receivers; re-verifying stores commit under HashMatches==true",
+			"R-commit":  "every ReceiveBlob implementation: commit points of the effective body dominated by success of the call that consumes source (the stream is followed through handle objects, pointer parameters and helper results); consumer errors not discarded; reader-taking commit helpers checked like receivers; re-verifying stores commit under HashMatches==true",
 			"R-verdict": "every ReceiveBlob implementation: a nil-error return (of the method or of the helper whose error it returns) is dominated by success of a call that consumed source (the digest/size verdict of blobserver.Receive reaches a backend only as that read error)",
 		},
 		Run:       runC02,
 		DesignRef: "DESIGN.md §4 C02",
-		Technique: "static analysis: effective bodies (call-chain frames over same-package static callees with parameter/result binding, fact transfer and success summaries of helpers), type-resolved who-may-call with value-flow acceptance idioms, dominance on err==nil / HashMatches edges over go/ssa, forward taint of the source reader, path exploration for error responses",
-		LevelText: "Decides structural necessary conditions only: which code may hand bytes to a store without the hash check and why those bytes are the ones the ref was computed from; that the verified core wraps the size cap and the digest comparison and notifies only after success; that the HTTP handlers guard, report and list correctly on every CFG path; that every backend commits only after the read of source succeeded. The verdicts are invariant under extraction/inlining of same-package helpers, function splitting, closure-to-function conversion, renaming and the usual control-flow reshapings (the selftest holds 17 such behaviour-preserving variants that must stay silent). Does not decide digests, the 16 MiB boundary behaviour, reader fragmentation or atomicity of third-party uploads.",
+		Technique: "static analysis: effective bodies (call-chain frames over same-package static callees with parameter/result binding, fact transfer and success summaries of helpers), module-wide write-once classification of struct fields, type-resolved who-may-call with value-flow acceptance idioms, dominance on err==nil / HashMatches edges over go/ssa, forward taint of the source reader, path exploration for error responses",
+		LevelText: "Decides structural necessary conditions only: which code may hand bytes to a store without the hash check and why those bytes are the ones the ref was computed from; that the verified core wraps the size cap and the digest comparison and notifies only after success; that the HTTP handlers guard, report and list correctly on every CFG path; that every backend commits only after the read of source succeeded. The verdicts are invariant under extraction/inlining of same-package helpers, function splitting, closure-to-function conversion, moving per-call state into the fields of a small object with methods, renaming and the usual control-flow reshapings (the selftest holds 38 behaviour-preserving variants that must stay silent). Does not decide digests, the 16 MiB boundary behaviour, reader fragmentation or atomicity of third-party uploads.",
 	})
 }
 
@@ -58,6 +58,15 @@ type c02Ctx struct {
 	core        map[*ssa.Function]bool // the entry points of the verified core and the helpers between them and the backend call
 	flagBad     map[string]string
 	hashReaders map[*types.Named]bool
+	fieldAddrs  map[c02FieldKey][]*ssa.FieldAddr // every address-of-field instruction of the module, built on first use
+	wholeStores map[*types.Named]bool            // struct types some value of which is overwritten as a whole through a pointer
+	initOnly    map[c02FieldKey]int              // 0 unknown, 1 yes, 2 no
+}
+
+// c02FieldKey names field I of the named struct type T.
+type c02FieldKey struct {
+	T *types.Named
+	I int
 }
 
 func runC02(p *Program, r *Reporter) {
@@ -882,6 +891,186 @@ func c02SpillParam(al *ssa.Alloc) *ssa.Parameter {
 	return prm
 }
 
+// ---- fields written once, where the object is built
+//
+// A helper may read from a field of a status/handle object what its caller
+// holds in a local (cs.sb.Ref for sb.Ref). The two are the same value when the
+// field is only ever written while the object is being built: every store of
+// the module to that field goes to a freshly allocated object that has not been
+// used for anything else yet, the field's address is never handed out, and no
+// value of the struct type is overwritten as a whole through a pointer.
+
+func (x *c02Ctx) buildFieldIndex() {
+	if x.fieldAddrs != nil {
+		return
+	}
+	x.fieldAddrs = map[c02FieldKey][]*ssa.FieldAddr{}
+	x.wholeStores = map[*types.Named]bool{}
+	x.initOnly = map[c02FieldKey]int{}
+	for _, fn := range x.p.AllFuncs {
+		for _, b := range fn.Blocks {
+			for _, in := range b.Instrs {
+				switch tv := in.(type) {
+				case *ssa.FieldAddr:
+					if n := NamedOf(tv.X.Type()); n != nil {
+						k := c02FieldKey{n, tv.Field}
+						x.fieldAddrs[k] = append(x.fieldAddrs[k], tv)
+					}
+				case *ssa.Store:
+					n, ok := types.Unalias(tv.Val.Type()).(*types.Named)
+					if !ok {
+						continue
+					}
+					if _, isStruct := n.Underlying().(*types.Struct); !isStruct {
+						continue
+					}
+					if al, isAl := tv.Addr.(*ssa.Alloc); isAl && (c02SpillParam(al) != nil || !al.Heap && plainVariable(al)) {
+						continue // a local variable nobody else points to
+					}
+					x.wholeStores[n] = true
+				}
+			}
+		}
+	}
+}
+
+// c02OnlyLoaded: the address is used only to load (the whole field or parts of it).
+func c02OnlyLoaded(addr ssa.Value, depth int) bool {
+	if addr.Referrers() == nil || depth > 6 {
+		return false
+	}
+	for _, u := range *addr.Referrers() {
+		switch u := u.(type) {
+		case *ssa.DebugRef:
+		case *ssa.UnOp:
+			if u.Op != token.MUL {
+				return false
+			}
+		case *ssa.FieldAddr:
+			if !c02OnlyLoaded(u, depth+1) {
+				return false
+			}
+		case *ssa.IndexAddr:
+			if u.X != addr || !c02OnlyLoaded(u, depth+1) {
+				return false
+			}
+		default:
+			return false
+		}
+	}
+	return true
+}
+
+// c02InitStore: fa (a field address of a fresh allocation) is used for exactly
+// one store, made while the object is still private to the straight-line code
+// that follows its allocation; returns that store.
+func c02InitStore(fa *ssa.FieldAddr) *ssa.Store {
+	al, ok := fa.X.(*ssa.Alloc)
+	if !ok || fa.Referrers() == nil || fa.Block() != al.Block() {
+		return nil
+	}
+	var st *ssa.Store
+	for _, u := range *fa.Referrers() {
+		switch u := u.(type) {
+		case *ssa.DebugRef:
+		case *ssa.Store:
+			if u.Addr != ssa.Value(fa) || st != nil {
+				return nil
+			}
+			st = u
+		default:
+			return nil
+		}
+	}
+	if st == nil || st.Block() != al.Block() || st.Val == ssa.Value(al) {
+		return nil
+	}
+	// nothing between the allocation and the store uses the object except to initialise fields
+	i0, i1 := instrIndex(al), instrIndex(st)
+	if i0 < 0 || i1 <= i0 {
+		return nil
+	}
+	for _, in := range al.Block().Instrs[i0+1 : i1] {
+		uses := false
+		for _, op := range in.Operands(nil) {
+			if *op == ssa.Value(al) {
+				uses = true
+			}
+		}
+		if !uses {
+			continue
+		}
+		f2, isFA := in.(*ssa.FieldAddr)
+		if !isFA || f2.Referrers() == nil {
+			return nil
+		}
+		for _, u := range *f2.Referrers() {
+			switch u := u.(type) {
+			case *ssa.DebugRef:
+			case *ssa.Store:
+				if u.Addr != ssa.Value(f2) {
+					return nil
+				}
+			default:
+				return nil
+			}
+		}
+	}
+	return st
+}
+
+// fieldInitOnly: field k is written only by initialising stores of fresh objects.
+func (x *c02Ctx) fieldInitOnly(k c02FieldKey) bool {
+	x.buildFieldIndex()
+	if v := x.initOnly[k]; v != 0 {
+		return v == 1
+	}
+	ok := !x.wholeStores[k.T]
+	if _, isStruct := k.T.Underlying().(*types.Struct); !isStruct {
+		ok = false
+	}
+	for _, fa := range x.fieldAddrs[k] {
+		if !ok {
+			break
+		}
+		if c02OnlyLoaded(fa, 0) {
+			continue
+		}
+		if c02InitStore(fa) == nil {
+			ok = false
+		}
+	}
+	if ok {
+		x.initOnly[k] = 1
+	} else {
+		x.initOnly[k] = 2
+	}
+	return ok
+}
+
+// initValue: the value field idx of the object allocated by al holds for the
+// rest of its life (nil when the field is not write-once, or not initialised:
+// then it holds the zero value, which no rule needs).
+func (x *c02Ctx) initValue(al *ssa.Alloc, idx int) ssa.Value {
+	n := NamedOf(al.Type())
+	if n == nil || !x.fieldInitOnly(c02FieldKey{n, idx}) || al.Referrers() == nil {
+		return nil
+	}
+	var val ssa.Value
+	for _, u := range *al.Referrers() {
+		fa, ok := u.(*ssa.FieldAddr)
+		if !ok || fa.Field != idx || c02OnlyLoaded(fa, 0) {
+			continue
+		}
+		st := c02InitStore(fa)
+		if st == nil || val != nil {
+			return nil
+		}
+		val = st.Val
+	}
+	return val
+}
+
 // origin resolves v (a value of frame f) to where it comes from: through
 // c02Origin, a helper's parameter to the caller's argument, the result of a
 // helper call to the value the helper returns on success (when unique).
@@ -903,6 +1092,18 @@ func (t *c02Tree) originX(f *c02Frame, v ssa.Value, desc bool) c02LV {
 			v, f = as[idx], f.parent
 		case *ssa.UnOp:
 			if tv.Op != token.MUL {
+				return c02LV{f, v}
+			}
+			if fa, isFA := tv.X.(*ssa.FieldAddr); isFA && i < 16 {
+				// a field written once, where the object was built (possibly by a helper, possibly
+				// the caller's object): the value stored there
+				bl := t.originX(f, fa.X, desc)
+				if al, isAl := bl.V.(*ssa.Alloc); isAl && c02SpillParam(al) == nil {
+					if v0 := t.x.initValue(al, fa.Field); v0 != nil {
+						v, f = v0, bl.F
+						continue
+					}
+				}
 				return c02LV{f, v}
 			}
 			al, ok := tv.X.(*ssa.Alloc)
@@ -1019,24 +1220,32 @@ func (t *c02Tree) pure(f *c02Frame, v ssa.Value, depth int) string {
 		}
 		var names []string
 		var base ssa.Value = fa
+		outer := fa
 		for {
 			a, ok := base.(*ssa.FieldAddr)
 			if !ok {
 				break
 			}
 			names = append([]string{fieldName(a.X.Type(), a.Field)}, names...)
-			base = a.X
+			base, outer = a.X, a
 		}
-		al, ok := base.(*ssa.Alloc)
+		// the object may be the caller's (a pointer parameter of a helper) or one a helper built
+		bl := t.origin(f, base)
+		al, ok := bl.V.(*ssa.Alloc)
 		if !ok {
 			return ""
 		}
-		p := c02SpillParam(al)
-		if p == nil {
+		if p := c02SpillParam(al); p != nil {
+			if b := t.pure(bl.F, p, depth+1); b != "" {
+				return b + "." + strings.Join(names, ".")
+			}
 			return ""
 		}
-		if b := t.pure(f, p, depth+1); b != "" {
-			return b + "." + strings.Join(names, ".")
+		// a field written once, where the object is built, holds that value ever after
+		if v0 := t.x.initValue(al, outer.Field); v0 != nil {
+			if b := t.pure(bl.F, v0, depth+1); b != "" {
+				return strings.Join(append([]string{b}, names[1:]...), ".")
+			}
 		}
 	}
 	return ""
@@ -2549,6 +2758,19 @@ func c02BaseObj(addr ssa.Value) ssa.Value {
 				return a
 			}
 			addr = b
+		case *ssa.Parameter:
+			// an object of the caller, reached through a pointer parameter
+			if _, ok := a.Type().Underlying().(*types.Pointer); ok {
+				return a
+			}
+			return nil
+		case *ssa.UnOp:
+			// an object reached through a pointer that was itself loaded (p.inner.f): the
+			// loaded pointer stands for the object
+			if _, ok := a.Type().Underlying().(*types.Pointer); ok && a.Op == token.MUL {
+				return a
+			}
+			return nil
 		default:
 			return nil
 		}
@@ -2630,6 +2852,10 @@ func (x *c02Ctx) flowOf(t *c02Tree, top *c02Frame, src *ssa.Parameter) *c02Flow 
 					if isT(tv.X) {
 						mark(tv)
 					}
+				case *ssa.Field:
+					if isT(tv.X) {
+						mark(tv)
+					}
 				case *ssa.Phi:
 					for _, e := range tv.Edges {
 						if isT(e) {
@@ -2654,6 +2880,39 @@ func (x *c02Ctx) flowOf(t *c02Tree, top *c02Frame, src *ssa.Parameter) *c02Flow 
 								if lv := (c02LV{k, k.fn.Params[i]}); !fl.tainted[lv] {
 									fl.tainted[lv] = true
 									changed = true
+								}
+							}
+						}
+						// ... an object the helper stored the stream into (through a pointer parameter)
+						// is the caller's object
+						for i, a := range tv.Common().Args {
+							if i >= len(k.fn.Params) || !fl.tainted[c02LV{k, k.fn.Params[i]}] || isT(a) {
+								continue
+							}
+							if _, isPtr := a.Type().Underlying().(*types.Pointer); isPtr {
+								mark(a)
+								if b := c02BaseObj(a); b != nil {
+									mark(b)
+								}
+							}
+						}
+						// ... and what the helper returns for the results of the call: a value of the
+						// helper that carries the stream (whatever its type) makes the result carry it
+						if val := c.Value(); val != nil {
+							for _, ri := range Returns(k.fn) {
+								for j, rv := range ri.Results {
+									if !fl.tainted[c02LV{k, rv}] {
+										continue
+									}
+									if len(ri.Results) == 1 {
+										mark(val)
+									} else if val.Referrers() != nil {
+										for _, u := range *val.Referrers() {
+											if ex, ok := u.(*ssa.Extract); ok && ex.Index == j {
+												mark(ex)
+											}
+										}
+									}
 								}
 							}
 						}
